@@ -121,7 +121,7 @@ def gen_form(rng, V, kind=None):
         c2 = rng.choice(['(= top.clk 0)', '(< top.cnt 3)', '#t', '#f', f'(< INDEX {V})'])
         return k, f'(do (step-while {c2}) INDEX)', f'(do (while (&& {c2} (step)) INDEX) INDEX)'
     if k == 'set-index':
-        i = rng.choice([0, 1, 3, -1, 99, V])
+        i = rng.choice([0, 1, 3, -1, 99, V, 5, 6, 'MAX-INDEX', '(+ MAX-INDEX 1)', 'INDEX'])      # the trace has six samples: 5 is the last index
         return k, f'(list (set-index {i}) INDEX)', f'(list (if (< {i} 0) #f (if (> {i} MAX-INDEX) #f (step (- {i} INDEX)))) INDEX)'
     if k == 'reverse':
         return k, f'(reverse (list {V} 2 {a}))', f"(let ([l9 (list {V} 2 {a})]) (list (last l9) (second l9) (first l9)))"
